@@ -135,6 +135,9 @@ def _check(prop, tier, seed, replay, work, t0):
             if at["ev"] == "Return":
                 bad_keys = {kk for kk in range(1, hdr["nkeys"] + 1) if last.get(kk, 0) != sum(1 for q in keys_of if kk in q)}
             moved = {e["k"] for e in evs[:v["line"] - j] if e["ev"] == "Mig"}
+            # keys of one hash tag share a slot: the hand-over of one key's slot hands the other over as well
+            slot_of = hdr.get("slotOf") or []
+            moved |= {kk for kk in range(1, len(slot_of) + 1) if any(m <= len(slot_of) and slot_of[kk - 1] == slot_of[m - 1] for m in moved)}
             sig = {"invariant": names[0], "txn": hdr["txn"], "pipe": hdr["pipe"],
                    # a jump over a command while the run goes on ("exec"), or a key that ends on a stale value ("return")
                    "at": "return" if at["ev"] == "Return" else "exec",
